@@ -60,6 +60,12 @@ func H20_wait_broadcast() {
 	default:
 		vAssert(second == "Lock#3;CondBroadcast#4;Unlock#3;", "C20.one-condition-variable-and-locker-per-code")
 	}
+	// a client that starts waiting now is released by the NEXT request with
+	// its code, not by one that was received before it started waiting
+	before0 := len(vSyncLog())
+	crashed = vCatch(func() { rerr = s.Wait(msg) })
+	vAssert(!crashed && rerr == nil, "C20.no-crash-for-any-code")
+	vAssert(vSyncLog()[before0:] == "Lock#1;CondWait#2;Unlock#1;", "C20.earlier-requests-do-not-release-a-later-waiter")
 	// another agent in the same process: a request it receives wakes its own
 	// waiters, not this agent's ("on any connection to the same agent")
 	before := len(vSyncLog())
